@@ -105,7 +105,31 @@ func c16Apply(root *ast.Node, o c16Op) string {
 func canonText(s string) string {
 	v, err := parseJV(s)
 	if err != nil {
-		return "text:" + s
+		// malformed text (returned verbatim for raw parts): blanks outside strings are as
+		// insignificant as in valid JSON - a partly re-encoded text and the original are equal
+		var sb strings.Builder
+		inStr := false
+		for i := 0; i < len(s); i++ {
+			ch := s[i]
+			if inStr {
+				sb.WriteByte(ch)
+				if ch == '\\' && i+1 < len(s) {
+					i++
+					sb.WriteByte(s[i])
+				} else if ch == '"' {
+					inStr = false
+				}
+				continue
+			}
+			if ch == ' ' || ch == '\t' || ch == '\n' || ch == '\r' {
+				continue
+			}
+			if ch == '"' {
+				inStr = true
+			}
+			sb.WriteByte(ch)
+		}
+		return "text:" + sb.String()
 	}
 	return "json:" + v.canon()
 }
@@ -313,14 +337,20 @@ func runC16(c *Ctx) Result {
 	simrt.PoolTape = t
 	defer func() { simrt.PoolTape = nil }()
 	got := make([][]string, nClients)
+	inv := make([][]uint64, nClients) // invoke / return stamps: the simulator's global event sequence
+	ret := make([][]uint64, nClients)
 	sim := simrt.NewSim(t, 400000)
 	for i := 0; i < nClients; i++ {
 		i := i
 		got[i] = make([]string, len(ops[i]))
+		inv[i] = make([]uint64, len(ops[i]))
+		ret[i] = make([]uint64, len(ops[i]))
 		sim.Go(func() {
 			for j, o := range ops[i] {
 				simrt.Yield(-100)
+				inv[i][j] = simrt.NextSeq()
 				got[i][j] = c16Apply(shared, o)
+				ret[i][j] = simrt.NextSeq()
 			}
 		})
 	}
@@ -363,12 +393,57 @@ func runC16(c *Ctx) Result {
 		}
 	}
 	if invalid {
-		// Deliberate, narrow relaxation under the injected fault "malformed text behind a
-		// non-validating constructor": how far a read gets before it meets the malformed
-		// byte depends on what was parsed before, already in a single-threaded run, so
-		// there is no order-independent sequential answer to compare with. Deadlock,
-		// panic and race oracles stay on.
-		c.inc("relaxation_invalid_text_results_not_compared")
+		// Under the injected fault "malformed text behind a non-validating constructor" how far a
+		// read gets before it meets the malformed byte depends on what was parsed before, already
+		// in a single-threaded run: there is no order-independent answer. What the property
+		// promises is still decidable: the recorded history must be LINEARIZABLE with respect to
+		// the single-threaded implementation itself (a private clone built the same way, the
+		// reads applied one after the other) - some order of the reads that respects each
+		// client's program order and real time (an operation that returned before another was
+		// invoked comes first) must explain every result.
+		ok, explored := c16Linearizable(b, ops, got, inv, ret, 3000)
+		c.add("linearization_nodes_explored", explored)
+		if ok {
+			c.inc("invalid_text_histories_linearizable")
+			return res
+		}
+		// Not jointly linearizable (or search budget used up). The implementation turns a
+		// malformed child into an error node in place, which later iterations skip like a
+		// removed element: two overlapping conversions may both report the syntax error although
+		// any sequential run reports it once. That is a property of the sequential behaviour
+		// under malformed text, not a concurrency defect, so the deciding check is per read: every
+		// answer must be one the single-threaded implementation can give for that read after
+		// SOME sequential run of reads that were invoked before it returned.
+		c.inc("invalid_text_histories_checked_per_read")
+		seqAnswers := map[string]bool{} // every answer the single-threaded implementation gave while searching
+		for i := range ops {
+			for j, o := range ops[i] {
+				ok, n := c16Explain(b, ops, got, inv, ret, i, j, 2000, seqAnswers)
+				c.add("linearization_nodes_explored", n)
+				if ok {
+					c.inc("invalid_text_reads_explained")
+					continue
+				}
+				if n >= 2000 {
+					c.inc("cap_linearization_search_budget_hit") // inconclusive, never reported
+					continue
+				}
+				var hs []string
+				for ci := range ops {
+					for cj, oo := range ops[ci] {
+						hs = append(hs, fmt.Sprintf("c%d[%d..%d] %s = %s", ci, inv[ci][cj], ret[ci][cj], oo, clip(got[ci][cj], 80)))
+					}
+				}
+				if strings.HasPrefix(got[i][j], "ERR(Syntax error") && seqAnswers[got[i][j]] {
+					// the syntax error of a malformed child, genuine (the sequential implementation
+					// reports the very same error through other reads), but surfaced through a read
+					// that sequentially never surfaces it: the reader picked the child while it was
+					// raw and found it turned into an error node when it got its lock (F21)
+					return fail("read-has-no-sequential-explanation:invalid-json:child-syntax-error-surfaced-mid-transition", fmt.Sprintf("client %d read %d %s answered %s; sequentially this read never reports that error (it returns the raw text, or skips the error node) | history: %s", i, j, o, clip(got[i][j], 200), strings.Join(hs, " ; ")), false)
+				}
+				return fail("read-has-no-sequential-explanation:invalid-json:"+c16AccNames[o.Acc], fmt.Sprintf("client %d read %d %s answered %s; no single-threaded run of the reads invoked before it returned makes the implementation give that answer | history: %s", i, j, o, clip(got[i][j], 200), strings.Join(hs, " ; ")), false)
+			}
+		}
 		return res
 	}
 	// sequential reference on a private clone built the same way
@@ -420,4 +495,124 @@ func corruptJSON(g *gen, text string) string {
 	}
 	i := cands[g.d(len(cands))]
 	return text[:i] + "x" + text[i+1:]
+}
+
+// c16Linearizable searches a sequential order of the recorded reads that the single-threaded
+// implementation (a fresh clone per candidate prefix) answers exactly as the concurrent run
+// did. Depth-first, pruned at the first differing answer; budget = clone replays.
+func c16Linearizable(b c16Build, ops [][]c16Op, got [][]string, inv, ret [][]uint64, budget int) (bool, int) {
+	n := len(ops)
+	pos := make([]int, n)
+	type ref struct{ c, j int }
+	var prefix []ref
+	explored := 0
+	total := 0
+	for i := range ops {
+		total += len(ops[i])
+	}
+	var dfs func() bool
+	dfs = func() bool {
+		if len(prefix) == total {
+			return true
+		}
+		// the earliest return among the operations not yet placed: nothing invoked after it may come first
+		minRet := ^uint64(0)
+		for c := 0; c < n; c++ {
+			if pos[c] < len(ops[c]) && ret[c][pos[c]] < minRet {
+				minRet = ret[c][pos[c]]
+			}
+		}
+		for c := 0; c < n; c++ {
+			j := pos[c]
+			if j >= len(ops[c]) || inv[c][j] > minRet {
+				continue
+			}
+			if explored >= budget {
+				return false
+			}
+			explored++
+			clone, err := b.build()
+			if err != nil || clone == nil {
+				return false
+			}
+			for _, r := range prefix {
+				c16Apply(clone, ops[r.c][r.j])
+			}
+			if c16Apply(clone, ops[c][j]) != got[c][j] {
+				continue
+			}
+			prefix = append(prefix, ref{c, j})
+			pos[c]++
+			if dfs() {
+				return true
+			}
+			pos[c]--
+			prefix = prefix[:len(prefix)-1]
+		}
+		return false
+	}
+	ok := dfs()
+	return ok, explored
+}
+
+// c16Explain decides the weaker, per-read form: is there a single-threaded run - the reads of
+// x's own client before x, plus any reads of the other clients that were invoked before x
+// returned, each client's reads in program order, interleaved in any way - after which read x
+// answers what it answered in the concurrent run? (The answers of the other reads are not
+// constrained: a conversion that meets a malformed child while another reader is turning that
+// child into an error node has no single linearization point.)
+func c16Explain(b c16Build, ops [][]c16Op, got [][]string, inv, ret [][]uint64, cx, jx int, budget int, seen map[string]bool) (bool, int) {
+	n := len(ops)
+	limit := make([]int, n) // how many reads of each client may precede x
+	for c := 0; c < n; c++ {
+		if c == cx {
+			limit[c] = jx
+			continue
+		}
+		for k := 0; k < len(ops[c]) && inv[c][k] < ret[cx][jx]; k++ {
+			limit[c] = k + 1
+		}
+	}
+	pos := make([]int, n)
+	type ref struct{ c, j int }
+	var prefix []ref
+	explored := 0
+	var dfs func() bool
+	dfs = func() bool {
+		if pos[cx] == jx {
+			if explored >= budget {
+				return false
+			}
+			explored++
+			clone, err := b.build()
+			if err != nil || clone == nil {
+				return false
+			}
+			for _, r := range prefix {
+				seen[c16Apply(clone, ops[r.c][r.j])] = true
+			}
+			a := c16Apply(clone, ops[cx][jx])
+			seen[a] = true
+			if a == got[cx][jx] {
+				return true
+			}
+		}
+		for c := 0; c < n; c++ {
+			if pos[c] >= limit[c] {
+				continue
+			}
+			prefix = append(prefix, ref{c, pos[c]})
+			pos[c]++
+			if dfs() {
+				return true
+			}
+			pos[c]--
+			prefix = prefix[:len(prefix)-1]
+			if explored >= budget {
+				return false
+			}
+		}
+		return false
+	}
+	return dfs(), explored
 }
